@@ -62,6 +62,13 @@ CHECKS = {
     text="For every exported function all paths are covered at once: at each return the number of constraint-handler invocations on the path and the code passed are compared with the returned indication (errno_t, negated int, EOF, NULL+*errp, false, 0). Nested calls are inlined so that whether they can report is decided from the guards on the path, which is what separates a real double report from a quiet nested call. Which inputs are violations is taken from the code's own checks; the clause 'RSIZE rejected before dest/src is touched' is not decided yet.",
     design_ref="DESIGN.md §3.3, §4 C05",
     note=TB + "; the handler returns normally with errno intact; listed value-level assumptions for four nested copies (sa/checks/c05.py ASSUME_QUIET); 46 triaged known findings (reproduced representatives) remain in known_findings.json"),
+ "C04": dict(
+    engine="pathflags",
+    technique="path-sensitive abstract interpretation with a destination typestate (written / cleared-at-entry-pointer / cleared-over-dmax), clearing lengths compared symbolically with the entry dmax (or the known object size); exemptions from path facts; source-write rule from inter-procedural write summaries",
+    category="other",
+    text="Every error exit of the 40 destination-writing functions is covered on all paths: dest must have been cleared at its entry value since the last write, over all dmax elements once the call has written (default build; thorough adds the no-slack configuration, where the first element suffices). The rule checks what is cleared - entry pointer and entry length, which is what orig_dest/orig_dmax exist for - so clearing from an advanced cursor or with a decremented counter is caught. Which exits are errors follows the function's return convention.",
+    design_ref="DESIGN.md §3.3, §4 C04",
+    note=TB + "; decided assuming C01 (writes stay inside dest); value-level assumptions as for C05; 28 triaged known findings (early exits before dest is validated, uncleared source-size / format violations)"),
 }
 
 NOT_APPLICABLE = {
